@@ -306,7 +306,14 @@ XMLByte* Base64::decodeToXMLByte(const XMLCh*         const   inputData
     ArrayJanitor<XMLByte> janFill(dataInByte, memMgr ? memMgr : XMLPlatformUtils::fgMemoryManager);
 
     for (XMLSize_t i = 0; i < srcLen; i++)
+    {
+        // a character outside the table is not a base64 character;
+        // narrowing it to XMLByte would alias it to one (or to the terminator)
+        if (inputData[i] >= BASELENGTH)
+            return 0;
+
         dataInByte[i] = (XMLByte)inputData[i];
+    }
 
     dataInByte[srcLen] = 0;
 
@@ -342,7 +349,14 @@ XMLCh* Base64::getCanonicalRepresentation(const XMLCh*         const   inputData
     ArrayJanitor<XMLByte> janFill(dataInByte, memMgr ? memMgr : XMLPlatformUtils::fgMemoryManager);
 
     for (XMLSize_t i = 0; i < srcLen; i++)
+    {
+        // a character outside the table is not a base64 character;
+        // narrowing it to XMLByte would alias it to one (or to the terminator)
+        if (inputData[i] >= BASELENGTH)
+            return 0;
+
         dataInByte[i] = (XMLByte)inputData[i];
+    }
 
     dataInByte[srcLen] = 0;
 
@@ -636,7 +650,8 @@ XMLByte* Base64::decode (   const XMLByte*        const   inputData
 
 bool Base64::isData(const XMLByte& octet)
 {
-    return (base64Inverse[octet]!=(XMLByte)-1);
+    // base64Inverse has BASELENGTH (255) entries, an octet can be 255
+    return (octet < BASELENGTH) && (base64Inverse[octet]!=(XMLByte)-1);
 }
 
 }
